@@ -13,8 +13,8 @@ package searcher
 //@ spec ascending(startedBefore bool, lastBefore string, r *search.DocumentMatch) bool = r == nil || !startedBefore || idKey(r.IndexInternalID) > lastBefore
 
 // ---- FilteringSearcher: the child's stream restricted to accepted matches ----
-// representation invariant: the child is never behind this searcher
-//@ spec filterInv(f *FilteringSearcher) bool = f.child != nil && f.child != f && f.accept != nil && implies(f.started, f.child.started && f.child.last >= f.last) && implies(f.done, f.child.done)
+// representation invariant: until it is exhausted, the child's cursor is this searcher's cursor
+//@ spec filterInv(f *FilteringSearcher) bool = f.child != nil && f.child != f && f.accept != nil && implies(f.started && !f.done, f.child.started && !f.child.done && f.child.last == f.last) && implies(!f.started && !f.done, !f.child.started && !f.child.done) && implies(f.done, f.child.done)
 
 //@ func FilteringSearcher.Next
 //@   props C08
@@ -39,7 +39,6 @@ package searcher
 //@   mode int
 //@   requires f != nil && filterInv(f) && ctx != nil && ctx.DocumentMatchPool != nil
 //@   requires f.done || unconsumed(f.started, f.last, idKey(ID))
-//@   requires f.child.done || unconsumed(f.child.started, f.child.last, idKey(ID))
 //@   modifies f.started, f.last, f.done, f.child.started, f.child.last, f.child.done, fields(search.DocumentMatch), search.DocumentMatchPool.avail, mem(*search.DocumentMatch)
 //@   at return: ghost f.started = f.started || (result1 == nil && result0 != nil)
 //@   at return: ghost f.last = ite(result1 == nil && result0 != nil, idKey(result0.IndexInternalID), f.last)
